@@ -36,7 +36,10 @@ func effect(in Instr) (pop, push int) {
 
 // Verify checks the structural well-formedness of a compiled program along
 // every control-flow path (property C10). It returns all problems found.
-func Verify(f *File) (*VerifyResult, []string) {
+func Verify(f *File) (*VerifyResult, []string) { return VerifyOpt(f, false) }
+
+// VerifyOpt is Verify; allowLoop admits LOOP (hand-assembled files).
+func VerifyOpt(f *File, allowLoop bool) (*VerifyResult, []string) {
 	var probs []string
 	bad := func(format string, a ...any) { probs = append(probs, fmt.Sprintf(format, a...)) }
 	res := &VerifyResult{DepthAt: map[int]int{}}
@@ -110,7 +113,7 @@ func Verify(f *File) (*VerifyResult, []string) {
 			if _, ok := at[tg]; !ok {
 				bad("%s: target %d is not an instruction boundary inside the code", in, tg)
 			}
-			if in.Op == LOOP {
+			if in.Op == LOOP && !allowLoop {
 				bad("%s: the compiler never emits LOOP", in)
 			}
 		}
@@ -191,7 +194,7 @@ func Verify(f *File) (*VerifyResult, []string) {
 			if s.b != 0 {
 				bad("%d blocks open at RET", s.b)
 			}
-		case JUMP:
+		case JUMP, LOOP:
 			flow(in, in.Target(), s)
 		case JFALSE:
 			flow(in, in.Target(), s)
